@@ -9,7 +9,7 @@ VERIF = os.path.dirname(os.path.dirname(os.path.abspath(__file__)))
 # `not_applicable` with the reason "not built yet".
 T_PROOF = "Lean 4 machine-checked proof about an executable model"
 CLAIMED = {
-    "C01": (T_PROOF + ": Pratt print/parse round trip over the extracted binding-power table, evaluator laws and fuel monotonicity over the evaluator model; correspondence of lexer, parser, resolver and evaluator models with the real pipeline on generated programs",
+    "C01": (T_PROOF + ": Pratt print/parse round trip over the extracted binding-power table, evaluator laws and fuel monotonicity over the evaluator model; correspondence of lexer, parser, resolver and evaluator models with the real pipeline on generated programs and on a boundary corpus (one count at 255/256/257, 65 535…65 537)",
             "Theorems (no sorry/axioms): for every text the front-end model accepts iff there is no lexical / syntax diagnostic and the parsed tree satisfies the documented well-formedness judgement (c01_accepted_iff_clean_and_valid), a valid canonical program is never rejected in any layout and runs like its tree (c01_valid_never_rejected, c01_accepted_runs_like_the_tree, and their _anyflag versions over parse_ignores_str_flag, which cover plain string literals whatever escape flag the lexer sets); what a valid text does is what the documented semantics of its tree says, whatever the layout, the caps and the optimisation plan (c01_text_means_tree, composing C09, C10, C03 and C06); theorems pin precedence/associativity for all expressions, short-circuit and left-to-right evaluation, truthiness, loop unrolling, call/return and concatenation/interpolation laws for all terms, states and fuel; the models are tied to the code by regenerated tables (keywords, binding powers, builtins, type rules) and differential runs of the Lean pipeline against the real interpreter.",
             "Trusted: Lean kernel, extractors, harness/driver; numbers are an abstract NumOps structure in theorems (the driver instantiates IEEE doubles, validated against Rust each run); std string functions assumed.",
             "DESIGN.md §5 C01"),
@@ -53,11 +53,11 @@ CLAIMED = {
             "For every history: blocks in bounds, aligned (absolute address), pairwise disjoint since the last reset below them; grow preserves contents; clean failure exactly when the request does not fit; reset reuse — proved on the model, tied to bump.rs by differential histories with shadow ranges and byte patterns.",
             "Trusted: Lean kernel, harness, hooks; mmap/mprotect/madvise assumed; sizes ≤ isize::MAX and capacity < 2^48 are explicit guards.",
             "DESIGN.md §5 C11"),
-    "C12": ("Lean 4 invariant proof over pool histories + generated size-class tables (decide) + correspondence of the model with the real Pool/PoolSet through hooks",
+    "C12": ("Lean 4 invariant proof over pool histories + generated size-class tables (decide) + correspondence of the model with the real Pool/PoolSet through hooks (size-class probes around every multiple of a power of two up to u32::MAX; histories with large fallback requests)",
             "Machine-checked proof (Lean 4, no sorry/axioms) that every legal alloc/release history of the pool model keeps exclusive ownership and conservation, that size classes fit and are minimal, that the wrapping ownership test is exact, that release finds the slot and class it came from, that fallback buffers are never recycled and that buffers of different classes never overlap; the model is tied to pool.rs by tables regenerated from the compiled crate and by differential runs of model and real Pool/PoolSet on generated histories, with an implementation-level shadow oracle for the search.",
             "Trusted: Lean kernel, extractor, harness/driver, hooks; releases are of live buffers with the requested size (the code's Safety contract; discharged for the interpreter by C02).",
             "DESIGN.md §5 C12"),
-    "C13": (T_PROOF + ": find = first occurrence through all search tiers incl. the two-way matcher (termination, in-range indexing), replace/split/join/slice/len specifications, UTF-8 self-synchronisation; correspondence incl. enumeration over small alphabets",
+    "C13": (T_PROOF + ": find = first occurrence through all search tiers incl. the two-way matcher (termination, in-range indexing), replace/split/join/slice/len specifications, UTF-8 self-synchronisation; correspondence incl. enumeration over small alphabets and lengths / offsets / occurrence counts at 254…258 and 511…513",
             "For all byte strings the search model returns the first occurrence and terminates, replace/split/join/slice/len meet their specifications and outputs are valid UTF-8; tied to tw.rs/replace.rs/string.rs by differential runs across all tiers.",
             "Trusted: Lean kernel, harness; memchr modelled by its specification; trim/case mapping/float parsing are Rust std (validated only by the tie).",
             "DESIGN.md §5 C13"),
@@ -77,7 +77,7 @@ CLAIMED = {
             "Theorem over all texts, all chunkings and all call counts for the model of read_line; the real function is driven through a real pipe with controlled chunk boundaries and compared with the model.",
             "Trusted: Lean kernel, harness; read(2) returns a non-empty prefix of the available bytes (assumed).",
             "DESIGN.md §5 C17"),
-    "C18": (T_PROOF + ": staged limit check exact at every boundary, first-exceeded-in-stage-order, limit ⇒ no plan and one warning, empty plan ⇒ same run; c18_pipeline: for any two caps the composed pipeline has the same observation up to fuel and warnings differ only by the limit warning; summary-event budget proved sufficient below the preflight limits for every call graph, component list and fuel (potential-function argument), equal-share design refuted; generated caps table + programs sized around each default cap; the real summary fixpoint against its model with budgets from the bound down to 0",
+    "C18": (T_PROOF + ": staged limit check exact at every boundary, first-exceeded-in-stage-order, limit ⇒ no plan and one warning, empty plan ⇒ same run; c18_pipeline: for any two caps the composed pipeline has the same observation up to fuel and warnings differ only by the limit warning; summary-event budget proved sufficient below the preflight limits for every call graph, component list and fuel (potential-function argument), equal-share design refuted; generated caps table + programs sized around each default cap; the real summary fixpoint against its model with budgets from the bound down to 0; programs at the statement limit and far above the liveness limit (term past 2^32) through the shipped binary",
             "Theorems about the limits model (exactness, stage order, pipeline decision) and run equivalence under an absent plan; counts and decisions compared with the real analysis on random programs with small caps and on generated programs just below/at/above every default cap; the summary fixpoint (events, single global budget, Kosaraju scheduling) modelled and compared with the real one per function; large call-graph components below the limits against ring-of-3 twins; statement-heavy and binding-sensitive programs around the statement limit through the shipped binary.",
             "Trusted: Lean kernel, extractor of DEFAULT_CAPS, harness; the scheduling order of components is checked by correspondence, not proved (the budget theorems hold for every order); memory is finite: about 1 M statements exhaust the shipped binary's scratch arenas (D-20).",
             "DESIGN.md §5 C18"),
